@@ -19,6 +19,10 @@ pub struct Case {
   /// generated rule documents (id, YAML): utility graphs, overlapping fixable rules
   #[serde(default)]
   pub extra_docs: Vec<(String, String)>,
+  /// HTML hosts (attribute + script holding the source) next to the two JavaScript files: files
+  /// with several documents, each with its own fixes
+  #[serde(default)]
+  pub html_files: usize,
 }
 
 #[derive(Clone, Debug)]
@@ -241,6 +245,22 @@ fn overlapping_fix_docs(e: &[u8]) -> Vec<(String, String)> {
     .collect()
 }
 
+/// Two different rules that carry the same id (a copied rule that was not renamed): both apply,
+/// whatever the order of documents and files. They have no fix and get no test file.
+fn same_id_docs(e: &[u8]) -> Vec<(String, String)> {
+  let pool = ["{kind: number}", "{kind: string}", "{pattern: \"baz($$$)\"}", "{kind: identifier, regex: \"^x$\"}", "{kind: array}"];
+  let a = e[0] as usize % pool.len();
+  let b = (a + 1 + e[1] as usize % (pool.len() - 1)) % pool.len();
+  let id = SAME_ID.to_string();
+  [a, b]
+    .iter()
+    .enumerate()
+    .map(|(i, k)| (id.clone(), format!("id: {id}\nlanguage: JavaScript\nseverity: {}\nmessage: \"copy {i}\"\nrule: {}\n", ["warning", "error"][(e[2] as usize + i) % 2], pool[*k])))
+    .collect()
+}
+
+const SAME_ID: &str = "copied-rule";
+
 const PERMUTABLE: &[&str] = &["utils", "transform", "constraints", "rewriters"];
 
 fn shuffle<T>(v: &mut [T], seed: u64, tag: &str) {
@@ -295,12 +315,20 @@ pub fn interpret(ch: &Choice, _st: &mut Stats) -> Option<Case> {
   if ch.extra[21] % 3 != 0 {
     extra_docs.extend(overlapping_fix_docs(&ch.extra[8..]));
   }
+  if ch.extra[22] % 3 == 0 {
+    extra_docs.extend(same_id_docs(&ch.extra[..8]));
+  }
+  let html_files = if ch.extra[23] % 2 == 0 { 3 + ch.extra[23] as usize % 6 } else { 0 };
+  if html_files > 0 {
+    extra_docs.push(("html-attr".to_string(), "id: html-attr\nlanguage: Html\nmessage: \"attribute\"\nrule: {kind: attribute_value}\nfix: changed\n".to_string()));
+  }
   Some(Case {
     rules,
     source,
     perms,
     launches: 0,
     extra_docs,
+    html_files,
   })
 }
 
@@ -335,9 +363,11 @@ fn materialise(case: &Case, seed: u64) -> TempDir {
   for (n, ds) in files {
     dir.write(&format!("rules/{n}"), ds.join("---\n").as_bytes());
   }
-  dir.write("src/a.js", case.source.as_bytes());
-  dir.write("src/deep/b.js", case.source.as_bytes());
+  write_sources(&dir, case);
   for (id, _) in &docs {
+    if id == SAME_ID || id == "html-attr" {
+      continue;
+    }
     let mut m = Mapping::new();
     m.insert("id".into(), Y::String(id.clone()));
     m.insert("invalid".into(), Y::Sequence(case.source.lines().map(|l| Y::String(l.to_string())).collect()));
@@ -345,6 +375,27 @@ fn materialise(case: &Case, seed: u64) -> TempDir {
     dir.write(&format!("tests/{id}-test.yml"), serde_yaml::to_string(&Y::Mapping(m)).unwrap().as_bytes());
   }
   dir
+}
+
+fn source_files(case: &Case) -> Vec<(String, String)> {
+  let mut v = vec![("src/a.js".to_string(), case.source.clone()), ("src/deep/b.js".to_string(), case.source.clone())];
+  for i in 0..case.html_files {
+    v.push((
+      format!("src/{}p{i}.html", ["", "deep/", "w/"][i % 3]),
+      format!("<div title=\"t{i}\">\n<script>\n{}</script>\n<p class=\"c{i}\">x</p>\n</div>\n", case.source),
+    ));
+  }
+  v
+}
+
+fn write_sources(dir: &TempDir, case: &Case) {
+  for (n, t) in source_files(case) {
+    dir.write(&n, t.as_bytes());
+  }
+}
+
+fn read_sources(dir: &TempDir, case: &Case) -> Vec<(String, Vec<u8>)> {
+  source_files(case).into_iter().map(|(n, _)| (n.clone(), dir.read(&n).unwrap_or_default())).collect()
 }
 
 fn normalised_scan(dir: &TempDir) -> Result<(Vec<Value>, Option<i32>), Fail> {
@@ -362,6 +413,8 @@ fn normalised_scan(dir: &TempDir) -> Result<(Vec<Value>, Option<i32>), Fail> {
       r["ruleId"].as_str().unwrap_or("").to_string(),
       r["range"]["byteOffset"]["start"].as_u64().unwrap_or(0),
       r["range"]["byteOffset"]["end"].as_u64().unwrap_or(0),
+      // records of two rules with one id on one node: the whole record decides
+      r.to_string(),
     )
   });
   Ok((recs, out.status))
@@ -403,7 +456,7 @@ pub fn check(case: &Case, st: &mut Stats) -> CheckResult {
   let launches = if case.launches == 0 { 4 } else { case.launches };
   let mut reference: Option<(Vec<Value>, Option<i32>)> = None;
   let mut snap_ref: Option<BTreeMap<String, u64>> = None;
-  let mut update_ref: Option<(Vec<u8>, Vec<u8>)> = None;
+  let mut update_ref: Option<Vec<(String, Vec<u8>)>> = None;
   for (pi, seed) in case.perms.iter().enumerate() {
     let dir = materialise(case, *seed);
     for k in 0..launches {
@@ -464,16 +517,21 @@ pub fn check(case: &Case, st: &mut Stats) -> CheckResult {
     // `scan -U`: the bytes written must not depend on the variant or the launch
     let reps = if pi == 0 { 2 } else { 1 };
     for rep in 0..reps {
-      dir.write("src/a.js", case.source.as_bytes());
-      dir.write("src/deep/b.js", case.source.as_bytes());
-      let out = cli::sgv(&["scan", "-U"], &dir.path, None);
+      write_sources(&dir, case);
+      // hosts with several documents: more than one worker, producers delayed by the hook
+      let sched = seed.wrapping_add(rep as u64).to_string();
+      let out = if case.html_files > 0 {
+        cli::sgv_env(&["scan", "-U", "-j", ["2", "4", "8"][(*seed as usize + rep) % 3]], &dir.path, None, &[("AST_GREP_VERIF_SCHED", sched.as_str())])
+      } else {
+        cli::sgv(&["scan", "-U"], &dir.path, None)
+      };
       if out.timed_out {
         return Err(Fail::new("inconclusive:watchdog", "sgv scan -U did not finish"));
       }
       if out.panicked() {
         return Err(Fail::new("C13:cli-panic", out.stderr_str()));
       }
-      let written = (dir.read("src/a.js").unwrap_or_default(), dir.read("src/deep/b.js").unwrap_or_default());
+      let written = read_sources(&dir, case);
       match &update_ref {
         None => update_ref = Some(written),
         Some(r) => {
@@ -482,8 +540,8 @@ pub fn check(case: &Case, st: &mut Stats) -> CheckResult {
             fail!(
               format!("C13:{which}:update-all-result-differs"),
               "`scan -U` writes different bytes (variant {pi}, repetition {rep}):\n--- reference\n{}\n--- this run\n{}\nrules: {:?}",
-              String::from_utf8_lossy(&r.0),
-              String::from_utf8_lossy(&written.0),
+              r.iter().zip(&written).find(|(x, y)| x != y).map(|(x, _)| format!("{}:\n{}", x.0, String::from_utf8_lossy(&x.1))).unwrap_or_default(),
+              r.iter().zip(&written).find(|(x, y)| x != y).map(|(_, y)| String::from_utf8_lossy(&y.1).into_owned()).unwrap_or_default(),
               case.extra_docs.iter().map(|(i, _)| i).collect::<Vec<_>>()
             );
           }
@@ -508,7 +566,7 @@ pub fn check(case: &Case, st: &mut Stats) -> CheckResult {
 pub fn run(cfg: &RunCfg) -> i32 {
   let mut report = Report::new(
     cfg,
-    "case = JavaScript project with 2-5 of 6 rule templates (two constraints that can both bind a shared variable, a utility diamond/chain, a 4-step transformation chain, three rewriters with joinBy feeding a second transformation, several variable-free constraints) in 1-3 multi-document rule files, two source files of 2-7 statements. Metamorphic variants: keys of every utils/transform/constraints map, the rewriters list, top-level keys, documents and rule file names are permuted by generated seeds. Every variant is scanned K times in fresh processes (fresh hash seeds); all normalised outputs (records incl. metaVariables, message, replacement; exit status) must be identical; `sg test -U` twice must leave identical snapshot files, identical across variants. evaluations = scan launches. Non-trivial = distinct case with an inter-dependent template and >= 1 finding.",
+    "case = JavaScript project with 2-5 of 6 rule templates (two constraints that can both bind a shared variable, a utility diamond/chain, a 4-step transformation chain, three rewriters with joinBy feeding a second transformation, several variable-free constraints; generated utility graphs, overlapping fixable rules, two different rules that share one id) in 1-3 multi-document rule files, two source files of 2-7 statements and, in half of the cases, 3-8 HTML hosts with the same statements in a <script> and a fixable host-language rule (`scan -U` then runs with -j 2/4/8 and hook-delayed producers). Metamorphic variants: keys of every utils/transform/constraints map, the rewriters list, top-level keys, documents and rule file names are permuted by generated seeds. Every variant is scanned K times in fresh processes (fresh hash seeds); all normalised outputs (records incl. metaVariables, message, replacement; exit status) must be identical; `sg test -U` twice must leave identical snapshot files, identical across variants. evaluations = scan launches. Non-trivial = distinct case with an inter-dependent template and >= 1 finding.",
   );
   report.assume("hash seeds cannot be chosen: non-determinism is established by disagreement between launches (quick K=4 x 4 variants, thorough K=8 x 7 variants)");
   let known = Known::load(&cfg.prop);
